@@ -79,6 +79,34 @@ Theorem C08_observations_from_workspace : forall frepr loads_s loads_b f s ev,
 Proof. exact observe_ref. Qed.
 Print Assumptions C08_observations_from_workspace.
 
+(* ---------------------------------------------------------------- opening by ABBREVIATED id
+   open_job(id=p) with fewer than 32 characters: in a session with sound caches the prefix is resolved against
+   the DIRECTORY LISTING alone (unique match -> that id, none -> KeyError, several -> LookupError); a cache entry
+   can only supply the state point of the id found there (an abbreviated id never hits the cache: its keys are
+   32-character hashes).  Hence the observation is transparent as well. *)
+Theorem C08_prefix_resolution_from_listing : forall frepr f s p,
+  Inv frepr f s -> (length p < 32)%nat ->
+  open_id f s p =
+    (ensure_read f s,
+     match filter (str_prefix p) (listing f) with
+     | [m] => Ok (m, alookup m (s_cache (ensure_read f s)))
+     | [] => Err EKeyError
+     | _ => Err ELookupError
+     end).
+Proof. exact prefix_resolution_from_listing. Qed.
+Print Assumptions C08_prefix_resolution_from_listing.
+
+Theorem C08_cache_transparent_abbreviated_id : forall frepr loads_s loads_b f s ev ps,
+  Inv frepr f s -> ws_intact frepr loads_s loads_b f ->
+  coll_free frepr loads_s f (map snd (s_cache s) ++ file_vals f) ->
+  (forall p, In p ps -> (length p < 32)%nat) ->
+  Forall2 (fun x y => fst x = fst y /\ pre_equiv (snd x) (snd y))
+    (snd (open_pres frepr loads_b f (fst (observe frepr loads_s loads_b f s ev)) ps))
+    (snd (open_pres frepr loads_b (without_cache f)
+            (fst (observe frepr loads_s loads_b (without_cache f) fresh ev)) ps)).
+Proof. exact prefix_transparent. Qed.
+Print Assumptions C08_cache_transparent_abbreviated_id.
+
 (* ---------------------------------------------------------------- update_cache_exact
    After update_cache() returns, the cache file lists exactly the ids of the workspace (exact: keys distinct,
    key set = directory listing, every value = the workspace state point up to key order), the workspace is
